@@ -157,7 +157,7 @@ func c17Run(r *Run, h int) {
 			n = 20 + rng.Intn(20)
 		}
 		for k := n; k > 0; k-- {
-			plans[ci] = append(plans[ci], []string{"inc", "inc", "rmw", "claim", "move", "share", "drop", "dropclaim"}[rng.Intn(8)])
+			plans[ci] = append(plans[ci], []string{"inc", "inc", "rmw", "claim", "move", "share", "drop", "dropclaim", "lookclaim"}[rng.Intn(9)])
 		}
 	}
 	seeds := make([]int64, nCli)
@@ -217,6 +217,15 @@ func c17Run(r *Run, h int) {
 				case "claim":
 					nm := names[lr.Intn(len(names))]
 					ops = []OperationJ{{Op: "insert", Table: "Uniq", UUID: mkUUID(200000 + ci*1000 + k), Row: Row{"name": VA(AS(nm)), "n": VA(AI(int64(ci)))}}, logOp}
+				case "lookclaim":
+					// look first, then claim: the transaction reads the rows that hold the name (they enter
+					// its working set unchanged) and inserts a row with that name all the same
+					nm := names[lr.Intn(len(names))]
+					look := OperationJ{Op: "select", Table: "Uniq", Where: []WCondJ{{Col: "name", Fn: "==", Val: VA(AS(nm))}}}
+					if lr.Intn(2) == 0 {
+						look.Where = nil
+					}
+					ops = []OperationJ{look, {Op: "insert", Table: "Uniq", UUID: mkUUID(400000 + ci*1000 + k), Row: Row{"name": VA(AS(nm)), "n": VA(AI(int64(ci)))}}, logOp}
 				case "share", "drop", "dropclaim":
 					// an item referenced from both holders; a reference dropped by a transaction that then loses
 					// the competition for a unique name (it is rejected after its reference bookkeeping ran);
